@@ -274,6 +274,3 @@ func tail(s []string, n int) []string {
 	return s
 }
 
-func runC07(t *testing.T, env core.Env, rep *core.Report) {
-	t.Skip("C07 is implemented in c07_test.go")
-}
